@@ -60,6 +60,8 @@ static std::string pfOne(int i0, int i1, int nth)
 
 struct SubThread : public Thread { volatile int* ran; SubThread() : ran(0) {} void run() { __sync_add_and_fetch(ran, 1); } };
 
+struct SlowThread : public Thread { volatile int* ran; int us; SlowThread() : ran(0), us(1500) {} void run() { usleep(us); __sync_add_and_fetch(ran, 1); } };
+
 static void jitter() { unsigned r = rnd() % 8; if (r == 0) usleep(rnd() % 200); else if (r < 3) sched_yield(); }
 
 // returns "ran=.. fin=.." for n tasks
@@ -135,6 +137,23 @@ static std::string thrOnce(const std::string& kind, int n)
 		jitter();
 		g.join();
 		for (int i = 0; i < n; i++) fin[i] = g._threads[i].finished() ? 1 : 0;
+	}
+	else if (kind == "grp3") {
+		// the SAME group started and joined three times (members keep their finished flag from the earlier round): after every
+		// join each member must have completed exactly that many runs; ran = 1 iff that held in all three rounds
+		ThreadGroup<SlowThread> g;
+		std::vector<int> cnt(n + 1, 0);
+		volatile int* c = (volatile int*)&cnt[0];
+		for (int i = 0; i < n; i++) { SlowThread t; t.ran = c + i; t.us = 800 + 500 * (i % 4); g << t; }
+		std::vector<int> okr(n + 1, 0);
+		for (int round = 1; round <= 3; round++) {
+			g.start();
+			jitter();
+			g.join();
+			for (int i = 0; i < n; i++) { if (c[i] == round) okr[i]++; fin[i] = fin[i] && g._threads[i].finished() ? 1 : 0; }
+		}
+		usleep(4000);   // let late members end before the counters go out of scope
+		for (int i = 0; i < n; i++) ran[i] = okr[i] == 3 ? 1 : (int)c[i] * 10 + okr[i];
 	}
 	else if (kind == "inv") {
 		if (n == 2) Thread::parallel_invoke([r]() { __sync_add_and_fetch(r + 0, 1); }, [r]() { __sync_add_and_fetch(r + 1, 1); });
